@@ -237,6 +237,9 @@ def override_specs():
         ("resv.plain", "reserved+", add_resv(["too", "Ann", "zX"], {"all": ["^o[a-z]"], "function": ["^f[0-9]"], "path": ["^(tt|to)$"],
                                                                     "typedef": ["^[a-z]+_t$"]})),
         ("resv.us", "reserved+underscore", us),
+        # rule FAMILIES are optional in a configuration: type-specific reserved patterns where no family for "all" exists (the python
+        # configuration ships none; overrides are merged as unions, so c / c++ keep theirs) - every family must be honoured on its own
+        ("resv.typed", "reserved+typed", add_resv([], {"attribute": ["^o[a-z]", "^(self|cls)$"], "path": ["^(tt|to)$"], "function": ["^f[0-9]"]})),
     ]
 
 
